@@ -462,6 +462,30 @@ func (g *gen) relativeGradient() {
 	g.emit(Op{K: KClosePathEndPath})
 }
 
+// selWrapThenHelper pushes a selector across the 63 -> 0 wrap with a run of
+// incrementing writes and, without any absolute selector write in between,
+// calls a gradient helper, which reads the selectors back.
+func (g *gen) selWrapThenHelper() {
+	t := g.t
+	c := uint8(t.Range(40, 63))
+	n := t.Range(1, 40)
+	if t.Bool() {
+		g.emit(Op{K: KSetCSel, U: c})
+		for i := 0; i < n; i++ {
+			g.emit(Op{K: KSetCReg, Incr: true, C: ivg.RGBAColor(genRGBA(t, t.Pick(2, 1, 1, 2, 2)))})
+		}
+	} else {
+		g.emit(Op{K: KSetNSel, U: c})
+		for i := 0; i < n; i++ {
+			g.emit(Op{K: KSetNReg, Incr: true, F: [6]float32{NRegVal(t)}})
+		}
+	}
+	if t.Chance(1, 4) {
+		g.emit(Op{K: []Kind{KCSel, KNSel}[t.Intn(2)]})
+	}
+	g.helper()
+}
+
 func (g *gen) stops() []generate.GradientStop {
 	t := g.t
 	n := t.Range(2, 5)
@@ -645,7 +669,11 @@ func GenProgram(t *tape.Tape, cfg GenCfg) []Op {
 		g.readUnset()
 	}
 	for i := 0; i < n; i++ {
-		switch t.Pick(g.wSel+g.wCReg+g.wNReg, g.wPath, g.wGrad, g.wHelper, wDirty, wUnset) {
+		wWrap := 0
+		if cfg.Abstract {
+			wWrap = 1 + g.wHelper/2
+		}
+		switch t.Pick(g.wSel+g.wCReg+g.wNReg, g.wPath, g.wGrad, g.wHelper, wDirty, wUnset, wWrap) {
 		case 0:
 			g.styling()
 		case 1:
@@ -659,6 +687,8 @@ func GenProgram(t *tape.Tape, cfg GenCfg) []Op {
 			wDirty = 0
 		case 5:
 			g.readUnset()
+		case 6:
+			g.selWrapThenHelper()
 		}
 	}
 	if cfg.Dirty && t.Chance(1, 2) {
